@@ -68,14 +68,60 @@ def build(graph, N, mode, first, maxdeg):
         return rows[node]
 
     class Lazy(dict):
+        """one of the two edge dictionaries; a question about the dictionary as a whole (truth value, length, keys)
+        materialises every row, like the real dictionary which has a key for every node with such an edge"""
+
         def __init__(self, k):
             self.k = k
 
         def get(self, node, default=None):
             return list(row(node)[self.k])
+
+        def __getitem__(self, node):
+            return list(row(node)[self.k])
+
+        def _keys(self):
+            return [x for x in nodes if row(x)[self.k]]
+
+        def __len__(self):
+            return len(self._keys())
+
+        def __bool__(self):
+            return bool(self._keys())
+
+        def __iter__(self):
+            return iter(self._keys())
+
+        def keys(self):
+            return self._keys()
+
+        def __contains__(self, node):
+            return bool(row(node)[self.k])
+
+        def items(self):
+            return [(x, list(row(x)[self.k])) for x in self._keys()]
+
+        def values(self):
+            return [list(row(x)[self.k]) for x in self._keys()]
     g.edges = Lazy(0)
     g.catch_edges = Lazy(1)
     return g, nodes, rows
+
+
+def complete(g, nodes, rows):
+    """materialise every row reachable from the entry (an algorithm that stops looking early must not shrink the graph
+    it is judged on)"""
+    todo = [nodes[0]]
+    seen = set()
+    while todo:
+        x = todo.pop()
+        if x in seen:
+            continue
+        seen.add(x)
+        todo += g.edges.get(x) + g.catch_edges.get(x)
+    for x in list(rows):
+        if x not in seen:
+            del rows[x]          # a row the algorithm asked for although nothing reaches it
 
 
 def succ(rows, v):
@@ -145,13 +191,14 @@ def job(jc, spec):
         g, nodes, rows = build(graph, N, mode, first, maxdeg)
         if which == 'C18':
             dom = g.immediate_dominators()
-            # unreachable rows are never asked for: touch nothing else
+            complete(g, nodes, rows)
             ref = ref_idom(nodes, rows)
             bad = ['idom(%r) = %r, definition gives %r' % (v, dom.get(v), ref[v]) for v in rows if dom.get(v) is not ref[v]]
             if dom.get(nodes[0]) is not None:
                 bad.append('entry has a dominator')
         else:
             g.compute_rpo()
+            complete(g, nodes, rows)
             if len(rows) != N:
                 return None, rows            # not rooted: outside the precondition of C19
             bad = rpo_problems(nodes, rows, N)
@@ -176,14 +223,175 @@ def job(jc, spec):
         jc.sample(dict(case=label, first_row=first, graphs=n))
 
 
+class Blk:
+    """stand-in for a DEXBasicBlock as graph.bfs / construct read it: childs and exception_analysis.exceptions"""
+
+    def __init__(self, i):
+        self.i = i
+        self.childs = []
+        self.exception_analysis = None
+
+    def __repr__(self):
+        return 'b%d' % self.i
+
+
+class ExcA:
+    def __init__(self):
+        self.exceptions = []
+
+
+def bfs_graph(graph, N, kinds):
+    """what construct() does with the block order of bfs(): one add_node per yielded block, edges as the blocks list
+    them; kinds[(i, j)]: 0 none, 1 child, 2 handler, 3 handler listed twice (multi-catch)"""
+    blocks = [Blk(i) for i in range(N)]
+    for (i, j), c in kinds.items():
+        if c == 1:
+            blocks[i].childs.append((0, 0, blocks[j]))
+        elif c >= 2:
+            if blocks[i].exception_analysis is None:
+                blocks[i].exception_analysis = ExcA()
+            for _ in range(c - 1):
+                blocks[i].exception_analysis.exceptions.append(('Ljava/lang/Exception;', 0, blocks[j]))
+    g = graph.Graph()
+    node_of = {}
+    order = []
+    for b in graph.bfs(blocks[0]):
+        order.append(b.i)
+        if b not in node_of:
+            node_of[b] = Nd(b.i)
+        g.add_node(node_of[b])
+    g.entry = node_of[blocks[0]]
+    for b, n in node_of.items():
+        for _, _, c in b.childs:
+            if c in node_of:
+                g.add_edge(n, node_of[c])
+        if b.exception_analysis:
+            for _, _, c in b.exception_analysis.exceptions:
+                if c in node_of:
+                    g.add_catch_edge(n, node_of[c])
+    g.compute_rpo()
+    bad = []
+    if len(order) != len(set(order)):
+        bad.append('bfs yields a block twice: %r' % order)
+    reach, todo = set(), [0]
+    while todo:
+        x = todo.pop()
+        if x in reach:
+            continue
+        reach.add(x)
+        todo += [j for (i, j), c in kinds.items() if i == x and c]
+    if set(order) != reach:
+        bad.append('bfs yields %r, reachable blocks are %r' % (order, sorted(reach)))
+    nodes = [node_of[b] for b in blocks if b in node_of]
+    nodes.sort(key=lambda n: n.i)
+    rows = {n: ([node_of[blocks[j]] for (i, j), c in kinds.items() if i == n.i and c == 1 and blocks[j] in node_of],
+                [node_of[blocks[j]] for (i, j), c in kinds.items() if i == n.i and c >= 2 and blocks[j] in node_of]) for n in nodes}
+    bad += rpo_problems(nodes, rows, len(nodes))
+    if len(g.rpo) != len(nodes):
+        bad.append('Graph.rpo has %d entries for %d nodes' % (len(g.rpo), len(nodes)))
+    return bad
+
+
+def job_bfs(jc, spec):
+    """C19 on graphs as construct() builds them: block order from graph.bfs over stand-in basic blocks"""
+    N, first = spec
+    graph = graphmod()
+    eng = jc.new_engine(max_paths=10 ** 7)
+    label = 'C19 bfs N=%d' % N
+    pairs = [(i, j) for i in range(N) for j in range(N) if i != j]
+
+    def go():
+        kinds = {}
+        for k, pr in enumerate(pairs):
+            kinds[pr] = first[k] if k < len(first) else eng.choose(4)
+        return bfs_graph(graph, N, kinds), [[i, j, c] for (i, j), c in kinds.items() if c]
+    n = 0
+    for pc, (kind_, r) in eng.explore(go):
+        n += 1
+        jc.reached('explored')
+        eng.st.obligations += 1
+        if kind_ == 'exc':
+            jc.concrete_violation(dict(prop='C19', N=N, edges=None, note=repr(r)), label=label, what='raised %r' % (r,))
+            continue
+        bad, edges = r
+        if bad:
+            jc.concrete_violation(dict(prop='C19', N=N, bfs=edges), label=label, what=bad[0])
+        else:
+            eng.st.discharged += 1
+    if first == (0, 0):
+        jc.sample(dict(case=label, graphs=n))
+
+
+def deep_graph(graph, N, extra):
+    """spine 0 -> 1 -> ... -> N-1 with extra edges {source: target}"""
+    nodes = [Nd(i) for i in range(N)]
+    g = graph.Graph()
+    for x in nodes:
+        g.add_node(x)
+    g.entry = nodes[0]
+    for i in range(N - 1):
+        g.add_edge(nodes[i], nodes[i + 1])
+    for a, b in extra.items():
+        g.add_edge(nodes[a], nodes[b])
+    g.compute_rpo()
+    bad = []
+    if nodes[0].num != 1:
+        bad.append('entry is numbered %d' % nodes[0].num)
+    if sorted(x.num for x in nodes) != list(range(1, N + 1)):
+        bad.append('numbers are not a permutation of 1..%d (%d nodes keep the number 0)' % (N, sum(1 for x in nodes if x.num == 0)))
+    # the spine reaches everything behind a node, so an edge a -> b is on a cycle iff b <= a
+    for i in range(N - 1):
+        if nodes[i].num >= nodes[i + 1].num:
+            bad.append('spine edge %d -> %d is numbered %d -> %d' % (i, i + 1, nodes[i].num, nodes[i + 1].num))
+            break
+    for a, b in extra.items():
+        if b > a and nodes[a].num >= nodes[b].num:
+            bad.append('forward edge %d -> %d is numbered %d -> %d' % (a, b, nodes[a].num, nodes[b].num))
+    return bad
+
+
+DEEP_N = 1500
+
+
+def job_deep(jc, spec):
+    """C19 on deep graphs: a spine of DEEP_N nodes, one optional extra edge from each of three nodes"""
+    graph = graphmod()
+    eng = jc.new_engine(max_paths=10 ** 6)
+    N = DEEP_N
+    srcs = [0, N - 2, N - 1]
+    tgts = [0, N // 2, N - 1]
+
+    def go():
+        extra = {}
+        for a in srcs:
+            c = eng.choose(len(tgts) + 1)
+            if c and tgts[c - 1] != a + 1:
+                extra[a] = tgts[c - 1]
+        return deep_graph(graph, N, extra), extra
+    for pc, (kind_, r) in eng.explore(go):
+        jc.reached('explored')
+        eng.st.obligations += 1
+        if kind_ == 'exc':
+            jc.concrete_violation(dict(prop='C19', N=N, edges=None, note=repr(r)), label='C19 deep', what='raised %r' % (r,))
+            continue
+        bad, extra = r
+        if bad:
+            jc.concrete_violation(dict(prop='C19', N=N, deep={str(k): v for k, v in extra.items()}), label='C19 deep', what=bad[0])
+        else:
+            eng.st.discharged += 1
+
+
 def job_history(jc, spec):
     """C19 through the public mutators: a graph built with add_node / add_edge / add_catch_edge is numbered, then changed
     by one more mutator call (or the entry is moved), and numbered again; the second numbering must be valid for the
     graph as it is then"""
-    N, first = spec
+    which, N, first = spec
     graph = graphmod()
     eng = jc.new_engine(max_paths=10 ** 7)
-    label = 'C19 history N=%d' % N
+    label = '%s history N=%d' % (which, N)
+
+    def ask(g):
+        return g.immediate_dominators() if which == 'C18' else g.compute_rpo()
     pairs = [(i, j) for i in range(N) for j in range(N) if i != j]
 
     def go():
@@ -200,7 +408,7 @@ def job_history(jc, spec):
                 g.add_edge(nodes[i], nodes[j])
             elif c == 2:
                 g.add_catch_edge(nodes[i], nodes[j])
-        g.compute_rpo()
+        ask(g)
         free = [p_ for p_ in pairs if kind[p_] == 0]
         op = eng.choose(2 * len(free) + N)
         if op < 2 * len(free):
@@ -212,7 +420,7 @@ def job_history(jc, spec):
             e = op - 2 * len(free)
             g.entry = nodes[e]
             what = ('entry', e, e)
-        g.compute_rpo()
+        dom = ask(g)
         rows = {}
         todo = [g.entry]
         while todo:
@@ -221,15 +429,19 @@ def job_history(jc, spec):
                 continue
             rows[x] = ([nodes[j] for (i, j), c in kind.items() if i == x.i and c == 1], [nodes[j] for (i, j), c in kind.items() if i == x.i and c == 2])
             todo += succ(rows, x)
-        if len(rows) != N:
-            return None
         order = [g.entry] + [x for x in nodes if x is not g.entry]
-        bad = rpo_problems(order, rows, N)
+        if which == 'C18':
+            ref = ref_idom(order, rows)
+            bad = ['idom(%r) = %r, definition gives %r' % (v, dom.get(v), ref[v]) for v in rows if dom.get(v) is not ref[v]]
+        elif len(rows) != N:
+            return None
+        else:
+            bad = rpo_problems(order, rows, N)
         return bad, [[i, j, c] for (i, j), c in kind.items() if c and not (i, j, c - 1) == (what[1], what[2], ['add_edge', 'add_catch_edge'].index(what[0]) if what[0] != 'entry' else -1)], list(what)
     n = 0
     for pc, (kind_, r) in eng.explore(go):
         if kind_ == 'exc':
-            jc.concrete_violation(dict(prop='C19', N=N, edges=None, note=repr(r)), label=label, what='raised %r' % (r,))
+            jc.concrete_violation(dict(prop=which, N=N, edges=None, note=repr(r)), label=label, what='raised %r' % (r,))
             continue
         if r is None:
             continue
@@ -238,7 +450,7 @@ def job_history(jc, spec):
         eng.st.obligations += 1
         bad, edges, what = r
         if bad:
-            jc.concrete_violation(dict(prop='C19', N=N, history=dict(edges=edges, then=what)), label=label, what=bad[0])
+            jc.concrete_violation(dict(prop=which, N=N, history=dict(edges=edges, then=what)), label=label, what=bad[0])
         else:
             eng.st.discharged += 1
     if first == (0, 0):
@@ -272,8 +484,8 @@ def run(ctx, which):
                 jobs.append((which, 6, 'chain2', (c,), 99))
             for c in range(8):
                 jobs.append((which, 7, 'chain', (c,), 99))
-    ctx.bounds = dict(histories='C19 only: every 3-node graph without self-loops built through add_node / add_edge / add_catch_edge, '
-                      'numbered, changed by one more add_edge / add_catch_edge / entry move, numbered again',
+    ctx.bounds = dict(histories='every 3-node graph without self-loops built through add_node / add_edge / add_catch_edge, '
+                      'asked (dominators / numbering), changed by one more add_edge / add_catch_edge / entry move, asked again',
                       graphs=['all digraphs on 3 nodes where every ordered pair is none / normal edge / catch edge (3^9)',
                               'all digraphs on 4 nodes with normal edges (2^16)'] +
                              (['all digraphs on 5 nodes without self-loops and without edges into the entry (2^16)', '6 nodes: spine 0->1->..->5 plus at most one extra edge per node (7^6)'] if which == 'C18' else []) +
@@ -291,8 +503,14 @@ def run(ctx, which):
     ctx.diff_unhooked(mod, [dict(prop=which, N=4, edges=[[0, 1, 0], [1, 2, 0], [2, 1, 0], [0, 3, 1], [3, 2, 0]]),
                             dict(prop=which, N=3, edges=[[0, 0, 0], [0, 2, 1], [2, 1, 0]])])
     ctx.pmap(job, jobs)
+    ctx.pmap(job_history, [(which, 3, f) for f in itertools.product(range(3), repeat=2)])
     if which == 'C19':
-        ctx.pmap(job_history, [(3, f) for f in itertools.product(range(3), repeat=2)])
+        ctx.functions_encoded += ['androguard.decompiler.graph.bfs (block order that construct() feeds to add_node)']
+        ctx.bounds['bfs'] = ('every 3-block graph without self-loops whose ordered pairs are none / child / handler / handler listed '
+                             'twice (4^6), built the way construct() does from the order of graph.bfs, then numbered')
+        ctx.bounds['deep'] = 'spine of %d nodes (longer than any default recursion limit) with 0..3 extra edges (64 graphs)' % DEEP_N
+        ctx.pmap(job_bfs, [(3, f) for f in itertools.product(range(4), repeat=2)])
+        ctx.pmap(job_deep, [None])
 
 
 def _concrete_graph(w):
@@ -340,7 +558,11 @@ def replay_history(w):
     for i, j, c in h['edges']:
         kind[(i, j)] = c
         (g.add_edge if c == 1 else g.add_catch_edge)(nodes[i], nodes[j])
-    g.compute_rpo()
+    c18 = w.get('prop') == 'C18'
+    if c18:
+        g.immediate_dominators()
+    else:
+        g.compute_rpo()
     first = [x.num for x in nodes]
     op, i, j = h['then']
     if op == 'entry':
@@ -348,7 +570,7 @@ def replay_history(w):
     else:
         kind[(i, j)] = 1 if op == 'add_edge' else 2
         getattr(g, op)(nodes[i], nodes[j])
-    g.compute_rpo()
+    dom = g.immediate_dominators() if c18 else g.compute_rpo()
     rows = {}
     todo = [g.entry]
     while todo:
@@ -358,6 +580,11 @@ def replay_history(w):
         rows[x] = ([nodes[b] for (a, b), c in kind.items() if a == x.i and c == 1], [nodes[b] for (a, b), c in kind.items() if a == x.i and c == 2])
         todo += succ(rows, x)
     order = [g.entry] + [x for x in nodes if x is not g.entry]
+    if c18:
+        ref = ref_idom(order, rows)
+        bad = ['idom(%r) = %r, definition gives %r' % (v, dom.get(v), ref[v]) for v in rows if dom.get(v) is not ref[v]]
+        return bool(bad), 'edges %r (1 normal, 2 catch), dominators asked; then %r and immediate_dominators again: %s' % (
+            h['edges'], h['then'], '; '.join(bad[:3]))
     bad = rpo_problems(order, rows, N) if len(rows) == N else []
     return bool(bad), 'edges %r (1 normal, 2 catch) numbered %r; then %r and compute_rpo again gives %r: %s' % (
         h['edges'], first, h['then'], [x.num for x in nodes], '; '.join(bad[:3]))
@@ -366,6 +593,16 @@ def replay_history(w):
 def replay(w):
     if w.get('history'):
         return replay_history(w)
+    if w.get('bfs') is not None or w.get('deep') is not None:
+        from androguard.decompiler import graph
+        try:
+            if w.get('bfs') is not None:
+                bad = bfs_graph(graph, w['N'], {(i, j): c for i, j, c in w['bfs']})
+                return bool(bad), 'blocks %r (1 child, 2 handler, 3 handler listed twice): %s' % (w['bfs'], '; '.join(bad[:3]))
+            bad = deep_graph(graph, w['N'], {int(k): v for k, v in w['deep'].items()})
+            return bool(bad), 'spine of %d nodes plus edges %r: %s' % (w['N'], w['deep'], '; '.join(bad[:3]))
+        except Exception as e:
+            return True, 'raised %r' % (e,)
     if w.get('edges') is None:
         return False, 'no graph recorded: %s' % w.get('note')
     g, nodes, rows = _concrete_graph(w)
